@@ -10,6 +10,8 @@ mod c09;
 mod c16;
 mod c10;
 mod c11;
+mod remote;
+mod c13;
 mod backhalf;
 pub mod compile;
 
@@ -38,6 +40,27 @@ fn main() {
             };
             let rec = serde_json::json!({"property": prop, "pdl": pdlv_core::print::plain(&d), "model": d, "type": args[4], "input": input, "class": args[6], "how_to_run": format!("./vcheck replay {}", args[7])});
             std::fs::write(&args[7], serde_json::to_string_pretty(&rec).unwrap()).expect("write");
+            0
+        }
+        Some("ref") => {
+            // pdlv ref <replay.json> [type]: what the reference model says about the recorded input
+            let v: serde_json::Value = serde_json::from_str(&std::fs::read_to_string(&args[2]).expect("file")).expect("json");
+            let d: pdlv_core::model::Desc = serde_json::from_value(v["model"].clone()).expect("model");
+            let r = pdlv_core::refcodec::Ref::new(&d);
+            let ty = args.get(3).cloned().unwrap_or(v["type"].as_str().unwrap_or("").to_string());
+            let mut types = d.chain(&ty).unwrap_or_default();
+            types.extend(d.descendants_of(&ty));
+            if let Some(h) = v["input"]["hex"].as_str() {
+                let b = pdlv_core::props::unhex(h);
+                for t in types {
+                    let mut ev = Default::default();
+                    let res = r.decode(&t, &b, true, &mut ev);
+                    println!("{t}: {:?} events {:?}", res.map(|x| x.0.to_string()), ev);
+                }
+            } else {
+                let (res, ev) = r.encode_events(&ty, &v["input"]["json"]);
+                println!("{ty}: {:?} events {:?}", res.map(|e| pdlv_core::props::hex(&e.bytes)), ev);
+            }
             0
         }
         Some("replay") => {
@@ -83,6 +106,7 @@ fn main() {
                 "C16" => c16::run(&tier, seed),
                 "C10" => c10::run(&tier, seed),
                 "C11" => c11::run(&tier, seed),
+                "C13" => c13::run(&tier, seed),
                 _ => {
                     eprintln!("unknown property {prop}");
                     2
